@@ -424,6 +424,49 @@ theorem cancel_unlink_removes_share_only (env : Env) (b : Bucket) (n : Nat) (sec
   refine ⟨?_, lookup_erase_self b n, fun m hm => lookup_erase_ne b n m hm⟩
   rcases hres with ⟨hk, hr⟩ | ⟨hk, hr⟩ <;> simp only [shareCancel, hl, hk, hr]
 
+/-! ### share data writes of an immutable upload never touch a lease record -/
+
+/-- **leases survive share data writes**, immutable container: `write_share_data` with the bound `max_size` (offsets
+    count from the start of the share DATA, and `12 + max_size` is at or below the lease offset — with equality for
+    the container of an open upload, `createWithLease_spec`) either raises `DataTooLargeError` and leaves the file
+    alone, or is accepted and then every byte from the lease offset on — every lease record —, the lease count, the
+    lease offset, the file length and `get_leases` are exactly what they were -/
+theorem data_write_keeps_leases_immutable (f : File) (hwf : ImmL.WF f) (m : Nat) (hm : 12 + m ≤ ImmL.leaseOffset f)
+    (off : Nat) (d : Bytes) :
+    (off + d.length > m → ImmL.writeShareData f (some m) off d = .error .dataTooLarge) ∧
+    (∀ g, ImmL.writeShareData f (some m) off d = .ok g →
+      off + d.length ≤ m ∧ g.length = f.length ∧ ImmL.numLeases g = ImmL.numLeases f ∧
+      ImmL.leaseOffset g = ImmL.leaseOffset f ∧ ImmL.WF g ∧
+      (∀ o k, ImmL.leaseOffset f ≤ o → pread g o k = pread f o k) ∧
+      (∀ j, ImmL.recAt g j = ImmL.recAt f j) ∧ ImmL.getLeases g = ImmL.getLeases f) := by
+  constructor
+  · intro h; simp [ImmL.writeShareData, h]
+  · intro g hg
+    obtain ⟨a, b, c, _, e, fr, r, gl⟩ := ImmL.writeShareData_spec f hwf m hm off d g hg
+    refine ⟨?_, a, b, c, e, fr, r, gl⟩
+    simp only [ImmL.writeShareData] at hg
+    split at hg
+    · simp at hg
+    · omega
+
+/-- the container of an open upload meets the hypotheses with equality: `12 + max_size = lease offset` -/
+theorem open_upload_container (h : Bytes → Bytes) (size : Nat) (li : Lease) :
+    ImmL.WF (ImmL.createWithLease h size li) ∧ 12 + size ≤ ImmL.leaseOffset (ImmL.createWithLease h size li) := by
+  obtain ⟨a, b, _, _⟩ := ImmL.createWithLease_spec h size li
+  exact ⟨a, by rw [b]; exact Nat.le_refl _⟩
+
+set_option maxRecDepth 20000 in
+/-- the bound matters: checking against the absolute lease offset instead of `max_size` (12 bytes too generous)
+    lets a 5-byte overrun of a 1-byte share rewrite the first lease record -/
+example :
+    let f := ImmL.createWithLease id 1
+      { owner := 1, expire := 100, renew := List.replicate 32 1, cancel := List.replicate 32 3, nodeid := [] }
+    (match ImmL.writeShareData f (some 1) 0 [9, 9, 9, 9, 9, 9] with | .error .dataTooLarge => true | _ => false) = true ∧
+    (match ImmL.writeShareData f (some (ImmL.leaseOffset f)) 0 [9, 9, 9, 9, 9, 9] with
+     | .ok g => decide (ImmL.recAt g 0 ≠ ImmL.recAt f 0)
+     | _ => false) = true := by
+  decide
+
 /-! ### non-vacuity: concrete containers meeting the hypotheses above -/
 
 /-- an immutable v2 share with 3 data bytes and two leases (secrets `[1]*32` / `[2]*32`, cancel `[3]*32` / `[4]*32`) -/
